@@ -136,8 +136,6 @@ pub fn k_grow<N: Nd, const F: usize, const CAP: usize, const FASTQ: bool>(nd: &m
         }
         let b = r.verif_buf_reader().buffer();
         vassert!(b.len() == CAP && content_is(b, &file, 0), "C09 growing keeps the buffered bytes");
-        cover!(refuse, "policy refused");
-        cover!(!refuse && m == CAP + 1, "slowly growing policy");
         std::mem::forget(r);
     } else {
         let mut r = fasta::Reader::verif_from_parts(br, pol, 0, Vec::with_capacity(4), 1, 0, 1, 2);
@@ -160,10 +158,10 @@ pub fn k_grow<N: Nd, const F: usize, const CAP: usize, const FASTQ: bool>(nd: &m
         }
         let b = r.verif_buf_reader().buffer();
         vassert!(b.len() == CAP && content_is(b, &file, 0), "C09 growing keeps the buffered bytes");
-        cover!(refuse, "policy refused");
-        cover!(!refuse && m == CAP + 1, "slowly growing policy");
         std::mem::forget(r);
     }
+    cover!(refuse, "policy refused");
+    cover!(!refuse && m == CAP + 1, "slowly growing policy");
 }
 
 /// K: a policy installed in mid-stream takes over without disturbing any reader field
